@@ -313,22 +313,18 @@ def rule_exec_db(ctx, R):
     """a queued SELECT governs the commands behind it: in EXEC's loop the database handed to each
     queued command is read from the connection in that same iteration, before the command runs
     (the read dominates the dispatch inside the loop body) -- not carried in a variable that is
-    refreshed only under a test of the command's spelling"""
+    refreshed only under a test of the command's spelling.  The iteration is the body of the loop
+    or, when an iterator chain drives it, the closure that runs once per queued command."""
     import cfg as _cfg
     HE = SERVER + "handle_exec"
-    b = ctx.prog.need(HE)
-    execs = [i for i, t in b.calls() if callee(t) in (SERVER + "process_command_parts", SERVER + "process_normal_command")]
-    R.floor("exec_dispatch_sites", len(execs))
-    lps = _cfg.loops(b)
-    for k, e in enumerate(execs):
-        inl = [(h, body) for h, body in lps.items() if e in body]
-        if not inl:
-            R.inst(HE, "exec-db#%d" % k, {"in_loop": False}); continue
-        head, body = min(inl, key=lambda hb: len(hb[1]))
-        # reads of conn.db_index through with_connection closures inside the loop
+    he = ctx.prog.need(HE)
+    sites = shared.exec_sites(ctx, he, (SERVER + "process_command_parts", SERVER + "process_normal_command"))
+    R.floor("exec_dispatch_sites", len(sites))
+
+    def db_reads(b, blocks):
         reads = []
         for i, t in b.calls():
-            if i not in body:
+            if i not in blocks:
                 continue
             for c in t.get("clos") or []:
                 cb = ctx.prog.bodies.get(c)
@@ -340,6 +336,17 @@ def rule_exec_db(ctx, R):
                             pl = op_place(st["r"]["o"]) if st["r"]["k"] == "use" else st["r"]["p"]
                             if pl and any(isinstance(x, dict) and str(x.get("f", "")).endswith("Connection.db_index") for x in pl["p"]):
                                 reads.append(i)
+        return reads
+    for k, (b, e, _) in enumerate(sites):
+        if b.kind == "Closure":
+            head, body = 0, set(range(len(b.bbs)))
+        else:
+            lps = _cfg.loops(b)
+            inl = [(h, body) for h, body in lps.items() if e in body]
+            if not inl:
+                R.inst(HE, "exec-db#%d" % k, {"in_loop": False}); continue
+            head, body = min(inl, key=lambda hb: len(hb[1]))
+        reads = db_reads(b, body)
         # same-iteration dominance: every path head -> e inside the body passes a read
         ok = False
         if reads:
@@ -366,7 +373,7 @@ def rule_exec_db(ctx, R):
             PT = re.compile(prov.PASS_THROUGH.pattern[:-1] + r"|^std::option::Option::<.*>::(unwrap_or|unwrap_or_else|map|copied)(::<.*>)?$)")
             P = prov.operand_origins(b, dbarg, pass_through=PT)
             from_read = any(r[0] == "call" and r[2] in reads for r in P.roots) or any(v[1] in reads for v in P.via)
-        R.inst(HE, "exec-db#%d" % k, {"in_loop": True, "db_index_reads_in_loop": len(set(reads)), "read_precedes_dispatch_on_every_path_of_the_iteration": ok, "db_argument_derives_from_the_read": from_read})
+        R.inst(HE, "exec-db#%d" % k, {"in_loop": True, "iteration_is_a_closure": b.kind == "Closure", "db_index_reads_in_loop": len(set(reads)), "read_precedes_dispatch_on_every_path_of_the_iteration": ok, "db_argument_derives_from_the_read": from_read})
         if not (ok and from_read):
             R.finding(HE, "exec-db:not-reread-each-iteration",
                       "EXEC hands a queued command a database that was not read from the connection earlier in the same iteration (line %d): after a queued SELECT (in any spelling the dispatcher accepts) the commands behind it still run in the old database" % b.bb_line(e), b.loc(e))
